@@ -132,6 +132,7 @@ class Runner(object):
         if missing:
             raise lean.ProofBroken('property theorems missing from the audit', ', '.join(missing))
         self.axioms = {t: axioms[t] for t in self.prop.theorems}
+        self.rechecked = lean.recheck() if self.tier == 'thorough' else None
 
     def ask(self, case, obs):
         lines = self.prop.lean_lines(case, obs)
@@ -314,8 +315,10 @@ class Runner(object):
             cov = {
                 'obligations': nthm + ob,
                 'discharged': (len(self.axioms) + dis) if proof_problem is None else 0,
-                'checker_cmd': 'cd lean && lake build && lake env lean Continuum/Audit.lean',
-                'trusted_base': TRUSTED_BASE_COMMON + ['%s: axioms %s' % (t, a) for t, a in sorted(self.axioms.items())] + notes,
+                'checker_cmd': 'cd lean && lake build && lake env lean Continuum/Audit.lean' + (
+                    ' && lake env leanchecker <%d modules>' % len(self.rechecked) if getattr(self, 'rechecked', None) else ''),
+                'trusted_base': TRUSTED_BASE_COMMON + ['%s: axioms %s' % (t, a) for t, a in sorted(self.axioms.items())] + notes + (
+                    ['leanchecker re-checked %d compiled modules of the project' % len(self.rechecked)] if getattr(self, 'rechecked', None) else []),
                 'evaluations': len(cases),
                 'corpus_cases': ncorpus,
                 'traces_validated_against_impl': len(cases),
